@@ -214,6 +214,14 @@ def run(chk):
         for fi, subs in enumerate((sa, sb, sc_)):
             files[names[fi]] = ["# file %d" % fi] + ["%include " + rel[(names[fi], names[j])] for j in subs]
         sc.add(0, files, main="d/a.conf", meta={"shape": "include-graph"})
+    # %import arguments that name nothing importable as a component (a single inserted or dropped character away
+    # from a name that would): refused like any other line that cannot be honoured
+    BAD_IMP = [".ZConfig.components.basic", ".ZConfig", "ZConfig.", "ZConfig..components.basic", ".", "..", "...", "a..b",
+               ".nosuch", "nosuch_zcv", "nosuch_zcv.sub", "os", "os.path", "os.", ".os", "zcv pkg", "1", "ZConfig.nosuch",
+               "ZConfig/components/basic", "ZConfig.components.basic.", "-", "é", "a\x00b", "$nodef", "ZConfig.components:basic"]
+    for arg in BAD_IMP:
+        sc.add(0, {"d/main.conf": ["%import " + arg]}, meta={"shape": "import-argument"})
+        sc.add(0, {"d/main.conf": ["%define e", "%import $e" + arg, "# after"]}, meta={"shape": "import-argument"})
     # %include arguments that cannot be opened: missing files, unknown schemes, malformed URLs, fragments
     BAD_INC = ["nosuch.conf", "foo:bar", "mailto:x", "c.co:nf", "http://[", "file:///nonexistent/zcv/x.conf", "sub/",
                "#frag", "a.conf#frag", "file://otherhost.invalid/x", "//x/y", "\\\\server\\share", "x y.conf", "%41.conf",
